@@ -58,6 +58,20 @@ class Recorder:
         self._tt.MultiCouplingTerms.multi_coupling_term_handle_JW = self._h
 
 
+_ORIG = {}
+
+
+def _orig(name):
+    """the unpatched adder of CouplingModel (the zoo logger patches the class attributes)"""
+    if not _ORIG:
+        from tenpy.models.model import CouplingModel
+        for n in ['add_onsite', 'add_coupling', 'add_onsite_term', 'add_coupling_term', 'add_multi_coupling_term',
+                  'add_multi_coupling', 'add_local_term', 'add_exponentially_decaying_coupling',
+                  'add_exponentially_decaying_centered_terms']:
+            _ORIG[n] = getattr(CouplingModel, n)
+    return _ORIG[name]
+
+
 def lam_np(spec):
     v = oc.strength_to_np(spec)
     return v
@@ -84,7 +98,7 @@ def apply_call(M, call, lean_calls, site_index):
         arr = to_array(s_np, lat.Ls)
         vals = [[int(i), oc.gq(arr[tuple(il)])] for i, il in zip(*lat.mps_lat_idx_fix_u(call['u']))]
         lean_calls.append(['onsite', si_u(call['u']), vals, call['op'], cat, ph])
-        M.add_onsite(s_np, call['u'], call['op'], category=cat, plus_hc=ph)
+        _orig('add_onsite')(M, s_np, call['u'], call['op'], category=cat, plus_hc=ph)
     elif f == 'add_coupling':
         dx = np.array(call['dx'])
         u1, u2 = call['u1'], call['u2']
@@ -95,30 +109,30 @@ def apply_call(M, call, lean_calls, site_index):
         all_zero = not np.any(np.asarray(s_np) != 0.)
         lean_calls.append(['coupling', si_u(u1), si_u(u2), all_zero, pairs, pairs_hc, call['op1'], call['op2'],
                            call.get('op_string'), cat, ph])
-        M.add_coupling(s_np, u1, call['op1'], u2, call['op2'], dx, op_string=call.get('op_string'),
+        _orig('add_coupling')(M, s_np, u1, call['op1'], u2, call['op2'], dx, op_string=call.get('op_string'),
                        category=cat, plus_hc=ph)
     elif f == 'add_onsite_term':
         lean_calls.append(['onsite_term', si_i(call['i']), oc.gq(s_np), call['i'], call['op'], cat, ph])
-        M.add_onsite_term(s_np, call['i'], call['op'], category=cat, plus_hc=ph)
+        _orig('add_onsite_term')(M, s_np, call['i'], call['op'], category=cat, plus_hc=ph)
     elif f == 'add_coupling_term':
         lean_calls.append(['coupling_term', si_i(call['i']), si_i(call['j']), oc.gq(s_np), call['i'], call['j'],
                            call['op_i'], call['op_j'], call['op_string'], cat, ph])
-        M.add_coupling_term(s_np, call['i'], call['j'], call['op_i'], call['op_j'], call['op_string'],
+        _orig('add_coupling_term')(M, s_np, call['i'], call['j'], call['op_i'], call['op_j'], call['op_string'],
                             category=cat, plus_hc=ph)
     elif f == 'add_multi_coupling_term':
         lean_calls.append(['multi_term', [si_i(i) for i in call['ijkl']], oc.gq(s_np), call['ijkl'], call['ops'],
                            call['op_string'], cat, ph, call.get('switchLR', 'middle_i')])
-        M.add_multi_coupling_term(s_np, list(call['ijkl']), list(call['ops']), list(call['op_string']),
+        _orig('add_multi_coupling_term')(M, s_np, list(call['ijkl']), list(call['ops']), list(call['op_string']),
                                   category=cat, plus_hc=ph, switchLR=call.get('switchLR', 'middle_i'))
     elif f in ('add_multi_coupling', 'add_local_term'):
         explicit = M.explicit_plus_hc
         with Recorder() as rec:
             if f == 'add_multi_coupling':
                 ops = [(o, list(dx), u) for o, dx, u in call['ops']]
-                M.add_multi_coupling(s_np, ops, category=cat, plus_hc=ph, switchLR=call.get('switchLR', 'middle_i'))
+                _orig('add_multi_coupling')(M, s_np, ops, category=cat, plus_hc=ph, switchLR=call.get('switchLR', 'middle_i'))
             else:
                 term = [(o, list(idx)) for o, idx in call['term']]
-                M.add_local_term(s_np, term, category=cat, plus_hc=ph)
+                _orig('add_local_term')(M, s_np, term, category=cat, plus_hc=ph)
         # raw (un-halved, unsigned) strengths per handled term: undo what the adder did
         if f == 'add_multi_coupling':
             ops = [(o, list(dx), u) for o, dx, u in call['ops']]
@@ -149,7 +163,7 @@ def apply_call(M, call, lean_calls, site_index):
         lean_calls.append(['exp', si_i(ss_list[0]) if subs_start is not None else (si_u(0) if subs is None else si_i(s_list[0])),
                            si_u(0) if subs is None else si_i(s_list[0]), oc.gq(s_np), lam_list,
                            call['op_i'], call['op_j'], s_list, ss_list, call.get('op_string'), ph])
-        M.add_exponentially_decaying_coupling(s_np, lam, call['op_i'], call['op_j'], subsites=subs,
+        _orig('add_exponentially_decaying_coupling')(M, s_np, lam, call['op_i'], call['op_j'], subsites=subs,
                                               subsites_start=subs_start, op_string=call.get('op_string'), plus_hc=ph)
     elif f == 'add_centered':
         lam = lam_np(call['lambda'])
@@ -158,7 +172,7 @@ def apply_call(M, call, lean_calls, site_index):
         s_list = list(range(N)) if subs is None else list(subs)
         lean_calls.append(['centered', si_i(call['i']), si_u(0) if subs is None else si_i(s_list[0]), oc.gq(s_np),
                            lam_list, call['op_i'], call['op_j'], call['i'], s_list, call.get('op_string'), ph])
-        M.add_exponentially_decaying_centered_terms(s_np, lam, call['op_i'], call['op_j'], call['i'], subsites=subs,
+        _orig('add_exponentially_decaying_centered_terms')(M, s_np, lam, call['op_i'], call['op_j'], call['i'], subsites=subs,
                                                     op_string=call.get('op_string'), plus_hc=ph)
     else:
         raise ValueError(f)
@@ -322,8 +336,9 @@ def grouped_dense(M, n):
 def representations(M, case, want=None):
     """dict name -> dense ndarray | Exception, for a finite model"""
     from tenpy.algorithms.exact_diag import (ExactDiag, get_numpy_Hamiltonian, get_scipy_sparse_Hamiltonian)
-    from tenpy.models.model import NearestNeighborModel, MPOModel
+    from tenpy.models.model import NearestNeighborModel, MPOModel, CouplingModel
     reps = {}
+    coupling = isinstance(M, CouplingModel)
 
     def attempt(name, fn):
         if want is not None and name not in want:
@@ -349,7 +364,7 @@ def representations(M, case, want=None):
     D = int(np.prod([s.dim for s in M.lat.mps_sites()]))
     attempt('mpo', lambda: from_mpo(M))
     # the from-couplings exporters build arrays of the wrong (huge) size for centred terms: only small systems
-    exporters_ok = not (any(c['f'] == 'add_centered' for c in case.get('calls', [])) and D > 64)
+    exporters_ok = coupling and not (any(c['f'] == 'add_centered' for c in case.get('calls', [])) and D > 64)
     if exporters_ok:
         attempt('numpy', lambda: get_numpy_Hamiltonian(M, undo_sort_charge=False))
         attempt('sparse', lambda: get_scipy_sparse_Hamiltonian(M, undo_sort_charge=False).toarray())
@@ -373,7 +388,7 @@ def representations(M, case, want=None):
         try:
             with warnings.catch_warnings():
                 warnings.simplefilter('ignore')
-                H_bond = M.calc_H_bond()
+                H_bond = M.calc_H_bond() if coupling else getattr(M, 'H_bond', None)
         except (ValueError, AssertionError) as e:
             # not a nearest-neighbour model (multi-site terms trip `assert len(term) == 2`)
             if isinstance(e, ValueError) and 'nearest' not in str(e).lower() and 'exp_decaying' not in str(e):
@@ -503,6 +518,8 @@ def oracle_terms(case, lat, n_cells=1):
         f = call['f']
         ph = bool(call.get('plus_hc', False))
         s = oc.strength_to_np(call['strength'])
+        if f in ('add_onsite', 'add_coupling', 'add_multi_coupling') and not np.any(np.asarray(s) != 0.):
+            continue  # "nothing to do: can even accept non-defined onsite operators"
         if f == 'add_onsite':
             arr = to_array(s, Ls)
             for x in base_points():
